@@ -312,6 +312,12 @@ pub fn scan(body: &[u8]) -> Scan {
             break;
         };
         let (key, value) = (&line[..sep], &line[sep + 2..]);
+        if key.is_empty() {
+            // a line that begins with the separator has no key at all: no reading of the
+            // grammar (however wide its key alphabet) makes that a field
+            trailer = Trailer::Reject(format!("line at offset {} has an empty key", pos));
+            break;
+        }
         let (Ok(key_s), Ok(value_s)) = (std::str::from_utf8(key), std::str::from_utf8(value))
         else {
             trailer = Trailer::Reject(format!("invalid UTF-8 in line at offset {}", pos));
